@@ -478,7 +478,7 @@ def _byteswap_shapes():
     out = []
     for cls, st in MUT_STATES:
         def build(S, interp, cls=cls, st=st):
-            return [m_bits(S, interp, 'self', cls, st), S.int('fmt'), mk_opt(S, 'start', 'int'), mk_opt(S, 'end', 'int'), S.bool('repeat')], {}
+            return [m_bits(S, interp, 'self', cls, st), S.raw('fmt'), mk_opt(S, 'start', 'int'), mk_opt(S, 'end', 'int'), S.bool('repeat')], {}
 
         def real(vals, cls=cls, st=st):
             return [r_bits(vals, 'self', cls, st), vals['fmt'], vals['start'], vals['end'], vals['repeat']], {}
